@@ -157,5 +157,7 @@ def main(argv):
             b = run_one(mod, copy.deepcopy(plan), inst)
             da = a[1]["digest"] if a[0] == "ok" else repr(a)
             db = b[1]["digest"] if b[0] == "ok" else repr(b)
-            emit({"i": index, "plan": kernel.digest_of(_core(plan)), "d1": da, "d2": db})
+            core = _core(plan)
+            core["config"] = {k: v for k, v in (core.get("config") or {}).items() if k != "hashseed"}
+            emit({"i": index, "plan": kernel.digest_of(core), "d1": da, "d2": db})
     return 0
